@@ -78,6 +78,10 @@ Fixpoint lookup (k : str) (fs : fields) : option (bool * val) :=
 Definition value_of (k : str) (fs : fields) : val :=
   match lookup k fs with Some (_, v) => v | None => VNull end.
 
+(** a read that only sees visible fields *)
+Definition vlookup (k : str) (fs : fields) : option val :=
+  match lookup k fs with Some (false, v) => Some v | _ => None end.
+
 (** `has_field_ex` *)
 Definition has_ex (fs : fields) (k : str) (inc_hidden : bool) : bool :=
   match lookup k fs with Some (h, _) => inc_hidden || negb h | None => false end.
@@ -201,11 +205,8 @@ Definition kv_obj (k : str) (v : val) : val :=
   VObj [(lit "key", (false, VStr k)); (lit "value", (false, v))].
 Definition keys_values_spec (inc_hidden : bool) (fs : fields) : val :=
   VArr (map (fun k => kv_obj k (value_of k fs)) (fields_ex inc_hidden fs)).
-(** PickObjectKeyValues::get (what `arr[i]` and iteration call) evaluates the value before it
-    builds the {key, value} object: element i fails as a whole when the field fails *)
-Definition keys_values_impl (inc_hidden : bool) (fs : fields) : val :=
-  VArr (map (fun k => match value_of k fs with VBomb i => VBomb i | v => kv_obj k v end)
-            (fields_ex inc_hidden fs)).
+(** PickObjectKeyValues::get (after 1809f60) builds the element with a lazy value thunk, as the
+    definition does: [keys_values_spec] is also the impl-model. *)
 
 (** * std.mapWithKey, for three representative functions *)
 Inductive mapfn := MKey | MPair | MVal.
@@ -240,9 +241,10 @@ Definition remove_key_impl (fs : fields) (k : str) (selfdeps : list str) : val :
 (** * std.mergePatch *)
 Definition obj_fields (v : val) : fields := match v with VObj fs => fs | _ => [] end.
 
-(** IMPL-MODEL: misc.rs builtin_merge_patch.  Both arguments are evaluated by the call; the loop
-    runs over the ordered union of the VISIBLE names, reads with `get` (any visibility), keeps a
-    target field that the patch lacks as a thunk, recurses eagerly. *)
+(** IMPL-MODEL: misc.rs builtin_merge_patch (after c053b92).  Both arguments are evaluated by the
+    call; the loop runs over the ordered union of the VISIBLE names and only reads visible fields
+    (`patch_fields.contains` / `target_fields.contains`), keeps a target field that the patch lacks
+    as a thunk, recurses eagerly. *)
 Fixpoint mp_impl (n : nat) (t p : val) : res val :=
   match n with
   | O => Fuel
@@ -256,12 +258,12 @@ Fixpoint mp_impl (n : nat) (t p : val) : res val :=
                    match keys with
                    | [] => Ok []
                    | k :: ks =>
-                       match lookup k pf with
+                       match vlookup k pf with
                        | None => bind (loop ks) (fun r => Ok ((k, (false, value_of k tf)) :: r))
-                       | Some (_, VBomb _) => Err ERun
-                       | Some (_, VNull) => loop ks
-                       | Some (_, pv) =>
-                           bind (match lookup k tf with Some (_, tv) => force tv | None => Ok VNull end)
+                       | Some (VBomb _) => Err ERun
+                       | Some VNull => loop ks
+                       | Some pv =>
+                           bind (match vlookup k tf with Some tv => force tv | None => Ok VNull end)
                                 (fun tv => bind (mp_impl n' tv pv)
                                                 (fun v => bind (loop ks) (fun r => Ok ((k, (false, v)) :: r))))
                        end
@@ -532,9 +534,9 @@ Definition run (impl : bool) (c : call) : res val :=
   | CValues o => with_obj o (fun fs => Ok (values_spec false fs))
   | CValuesAll o => with_obj o (fun fs => Ok (values_spec true fs))
   | CKeysValues o =>
-      with_obj o (fun fs => Ok ((if impl then keys_values_impl else keys_values_spec) false fs))
+      with_obj o (fun fs => Ok (keys_values_spec false fs))
   | CKeysValuesAll o =>
-      with_obj o (fun fs => Ok ((if impl then keys_values_impl else keys_values_spec) true fs))
+      with_obj o (fun fs => Ok (keys_values_spec true fs))
   | CHas o k => with_obj o (fun fs => Ok (VBool (has_ex fs k false)))
   | CHasAll o k => with_obj o (fun fs => Ok (VBool (has_ex fs k true)))
   | CHasEx o k h => with_obj o (fun fs => Ok (VBool (has_ex fs k h)))
